@@ -44,4 +44,21 @@ example : ((xoutputs [] (fun r _ => r.cats.length) (CState.fresh Registry.empty)
 example : (xrun [] (fun r _ => r.cats.length) (CState.fresh Registry.empty) arithHistory).memo = [((5, 3), true)] := by
   decide +kernel
 
+/-- the hypotheses of `ywarm_eq_fresh_partial` / `error_detail_ignores_caches` are met by a history that asks a failing
+question twice and once more after a registration (`negativeVerdictHistory`: check(5, 3) with the category 5 not
+registered, memoised negatively); with a (toy) failure detail that does look at the registry — the number of
+registered categories — the details are present exactly at the failing queries, and the second asking, a memo HIT,
+reports what the first one, a memo MISS, reported -/
+example : (negativeVerdictHistory.map XOp.base).all (xopClean []) = true := by decide +kernel
+example : ((youtputs [] (fun _ _ => ()) (fun r (_ : Query) => r.cats.length) (CState.fresh Registry.empty)
+      (negativeVerdictHistory.map XOp.base)).map (·.2))
+    = [none, none, some 0, some 0, none, none, none, some 1, some 1] := by decide +kernel
+example : ((youtputs [] (fun _ _ => ()) (fun r (_ : Query) => r.cats.length) (CState.fresh Registry.empty)
+      [.base (.reg (.addUnitBase (.str 1) 10 (.str 2))), .base (.query (.check 5 2)), .base (.query (.check 5 2)),
+       .base (.query (.create 5 2)), .base (.query (.check 5 2))]).map (·.2))
+    = [none, some 0, some 0, some 0, some 0] := by decide +kernel
+example : (xrun [] (fun _ _ => ()) (CState.fresh Registry.empty)
+      [.base (.reg (.addUnitBase (.str 1) 10 (.str 2))), .base (.query (.check 5 2)), .base (.query (.check 5 2))]).memo
+    = [((5, 2), false)] := by decide +kernel
+
 end Barril.Reg
